@@ -206,12 +206,12 @@ package packets
 
 // Subscribe.Unpack: every accepted topic filter carries exactly the options its option byte encodes: re-encoding
 // the decoded options gives the byte back (v5); the byte is the QoS (v3); QoS is at most 2; the name is the decoded
-// string; the entry appended to Topics is that topic.
+// string; Retain Handling is 0, 1 or 2 (3 is a Protocol Error, MQTT 3.8.3.1); the entry appended to Topics is that topic.
 //@ func (*Subscribe).Unpack mode bv
 //@ props C06
 //@ requires [C06] p != nil && p.FixHeader != nil && p.FixHeader.RemainLength >= 0
 //@ modifies heap
-//@ call Buffer.Len#1 assert [C06] (p.Version == 5 ==> subOpts(topic.Qos, topic.NoLocal, topic.RetainAsPublished, topic.RetainHandling) == opts) && (p.Version != 5 ==> topic.Qos == opts && !topic.NoLocal && !topic.RetainAsPublished && topic.RetainHandling == 0) && topic.Qos <= 2 && topic.Name == string(topicFilter)
+//@ call Buffer.Len#1 assert [C06] (p.Version == 5 ==> subOpts(topic.Qos, topic.NoLocal, topic.RetainAsPublished, topic.RetainHandling) == opts) && (p.Version != 5 ==> topic.Qos == opts && !topic.NoLocal && !topic.RetainAsPublished && topic.RetainHandling == 0) && topic.Qos <= 2 && topic.RetainHandling <= 2 && topic.Name == string(topicFilter)
 //@ call Buffer.Len#1 assert [C06] len(p.Topics) >= 1 && p.Topics[len(p.Topics) - 1].Qos == topic.Qos && p.Topics[len(p.Topics) - 1].NoLocal == topic.NoLocal && p.Topics[len(p.Topics) - 1].RetainAsPublished == topic.RetainAsPublished && p.Topics[len(p.Topics) - 1].RetainHandling == topic.RetainHandling && p.Topics[len(p.Topics) - 1].Name == topic.Name
 //@ loop 1 invariant bufOK(bufr)
 
